@@ -48,7 +48,7 @@ var disturbances = map[bool][]string{
 		"payout fail", "payout pending", "settle success", "settle fail", "settle success later", "settle fail later", "agree", "agree badpubkey",
 	},
 	false: { // maker
-		"timeout", "cancel", "cancel from=third", "coop", "coop badkey", "coop from=third", "csv", "claimpaid", "feepaid",
+		"timeout", "cancel", "cancel from=third", "coop", "coop badkey", "coop wrongkey", "coop from=third", "csv", "claimpaid", "feepaid",
 		"blocks btc 1008", "blocks lbtc 10080", "txmsg", "agree", "agree badpubkey", "agree premium=2000000", "confirm",
 		"fault send down", "fault opening down", "fault height.btc down", "fault height.lbtc down", "fault getpayreq down", "fault csv down", "fault coop down",
 		"fault outputscript down", "fault balance down", "fault openingfee down", "fault label down",
@@ -191,8 +191,20 @@ func restPrefixes(role, chain string) map[string][]string {
 	return nil
 }
 
-var stimuli = []string{"timeout", "cancel", "cancel from=third", "coop", "coop badkey", "agree", "agree badpubkey", "txmsg", "txmsg tx=junk",
+var stimuli = []string{"timeout", "cancel", "cancel from=third", "coop", "coop badkey", "coop wrongkey", "agree", "agree badpubkey", "txmsg", "txmsg tx=junk",
 	"confirm", "confirm err", "csv", "claimpaid force", "feepaid force", "restart", "blocks btc 600", "blocks lbtc 100"}
+
+// faultedStimuli: a stimulus preceded by one failure, or by a persistent failure (more than the 21
+// retries), of the service call it triggers.
+func faultedStimuli(role string) []string {
+	one := func(kind, stim string) string { return "fault " + kind + " down;" + stim }
+	many := func(kind, stim string) string { return strings.Join(rep("fault "+kind+" down", 23), ";") + ";" + stim }
+	if isTaker(role) {
+		return []string{one("preimage", "confirm"), one("send", "cancel"), one("send", "timeout"), one("height.btc", "txmsg"), one("height.lbtc", "txmsg"), one("decode", "txmsg")}
+	}
+	return []string{one("coop", "coop"), many("coop", "coop"), one("csv", "csv"), many("csv", "csv"), one("send", "cancel"), one("opening", "agree"), one("opening", "feepaid"),
+		one("getpayreq", "agree"), one("getpayreq", "feepaid"), one("height.btc", "agree"), one("height.lbtc", "feepaid")}
+}
 
 type scn struct {
 	role  string
@@ -214,8 +226,8 @@ func sweepScenarios(rolesWanted []string) []scn {
 			}
 			sortStrings(names)
 			for _, st := range names {
-				for _, stim := range stimuli {
-					tail := []string{stim, "restart"}
+				for _, stim := range append(append([]string{}, stimuli...), faultedStimuli(role)...) {
+					tail := append(strings.Split(stim, ";"), "restart")
 					if isTaker(role) {
 						tail = append(tail, "confirm")
 					} else {
